@@ -930,7 +930,7 @@ func (l *LinkLayerDiscoveryInfo) Decode8021() (info LLDPInfo8021, err error) {
 			id := binary.BigEndian.Uint16(o.Info[1:3])
 			info.PPVIDs = append(info.PPVIDs, PortProtocolVLANID{sup, en, id})
 		case LLDP8021SubtypeVLANName:
-			if err = checkLLDPOrgSpecificLen(o, 2); err != nil {
+			if err = checkLLDPOrgSpecificLen(o, 3); err != nil {
 				return
 			}
 			id := binary.BigEndian.Uint16(o.Info[0:2])
